@@ -63,6 +63,6 @@ def main():
 sys.path.insert(0, os.path.join(HERE, '..', 'engine', 'py'))
 from ddoverif import props as _P
 ALL_PROPS = sorted(_P.PROPS)
-DD_PROPS = [p for p in ['C01', 'C02', 'C06', 'C07', 'C08', 'C09', 'C10', 'C12', 'C13', 'C15', 'C20'] if p in _P.PROPS]
+DD_PROPS = [p for p in ['C01', 'C02', 'C05', 'C06', 'C07', 'C08', 'C09', 'C10', 'C12', 'C13', 'C15', 'C20'] if p in _P.PROPS]
 if __name__ == '__main__':
     main()
